@@ -95,7 +95,30 @@ def build(tier, seed):
         from contracts import plumbing
         from bounded import c09
         return plumbing.sourcefile_gets_incl_src(PROP, lambda: c09.site_search(shape_names=("constructors local types and file links",), options=[c09.OPTIONS[1]]))
-    tasks = [Task(f"{PROP}.S.incl_src", PROP, "Project._fortran_file", _incl),
+    def _get_name():
+        from bounded import c10
+        from contracts import names
+        c = names.get_name(PROP)
+        c.search_fn = c10.search
+        return c
+    _get_name.__name__ = "get_name"
+
+    def _rebase():
+        from bounded import c16
+        from contracts import external
+        c = external.dict2obj_rebase(PROP)
+        c.search_fn = lambda: c16.search(("remote",))
+        return c
+    _rebase.__name__ = "dict2obj_rebase"
+
+    def _one():
+        from bounded import c16
+        from contracts import external
+        c = external.load_external_one(PROP)
+        c.search_fn = lambda: c16.search(("remote",))
+        return c
+    _one.__name__ = "load_external_one"
+    tasks = [a_task(PROP, _get_name), a_task(PROP, _rebase), a_task(PROP, _one), Task(f"{PROP}.S.incl_src", PROP, "Project._fortran_file", _incl),
              a_task(PROP, _w(links.find_in_list)), a_task(PROP, _w(links.project_find_tail)), a_task(PROP, _w(links.convert_link_lookup)), link_re_task(),
              a_task(PROP, _ptd),
              Task(f"{PROP}.S.no_memo", PROP, "FordLinkProcessor.handleMatch", lambda: links.no_memo_obligation(PROP, lambda: __import__("bounded.c11", fromlist=["x"]).search())),
